@@ -12,9 +12,10 @@ evaluation of the header) and compares it, as a FLAT token sequence (deep struct
 with what the library yields.
 
 SCALE    programs whose size along ONE dimension crosses 8 / 16 / 32 / 64 / 128 / 256 (/ 1000) while the rest
-         stays small:
+         stays small (sizes 9, 17, 33, 65, 129, 257, 1001: one more than the threshold, so that a cut-off "at T" and
+         one "beyond T" both show; plus 21 / 40 / 50 / 100 / 200):
   chain    N macros each calling the previous one (arguments forwarded, permuted, replaced, used as index /
-           loop count; levels wrapped in loops / parallel blocks), N up to 129 wrapped, 190 plain
+           loop count; levels wrapped in loops / parallel blocks), N up to 129 (thorough: 190, plain levels only)
   nest     a call below N nested constructs (loop / parallel / sequential / subcircuit), a macro body nested N
            deep with an inner call at the bottom, or both
   stmts    N statements (calls and natives) in ONE block: top level, loop body, subcircuit, parallel block, a
@@ -53,8 +54,11 @@ oracles (name@part)
   C04s_arity      a call with the wrong number of arguments (at any depth) raises JaqalError
   C04e_*@...:names  the oracles of c04_entry on the renamed programs
 
-CPython itself bounds the depth: with the recursion limit raised the unchanged library expands a plain chain of 245
-macros and a wrapped chain of 145 (C stack guard); the stream stays 20 % below that.
+CPython itself bounds the depth: with the recursion limit raised (this script sets it to 8000 while it runs) the
+unchanged library expands a plain chain of 245 macros and a chain of 145 whose levels are all wrapped in loops (beyond
+that: RecursionError from the C stack guard, whatever the limit); the stream stays 20 % below that.  Deep recursion is
+slow in CPython on a loaded machine, so in the quick tier the chains / nestings >= 100 go through expand_macros(c), the
+parse flag and the emulator only; the thorough tier sends them through every entry point.
 """
 import argparse
 import json
@@ -66,7 +70,7 @@ import time
 from collections import Counter
 
 DEFAULT_DRIVER = "/verif/lean/.lake/build/bin/jaqal-model"
-RECURSION = 12000
+RECURSION = 8000
 PULSE_A = "c04sc_pulses_a"
 PULSE_B = "c04sc_pulses_b"
 
@@ -393,7 +397,7 @@ def fam_macros(rng, N, runnable):
         ncall = 0 if not sigs else rng.choice([0, 1, 1, 1, 2]) if k % 7 else 1
         for _ in range(ncall):
             j = rng.randrange(max(0, k - 40), k) if rng.random() < 0.8 else rng.randrange(k)
-            if size[k] + size[j] > 300:      # the expansion stays small: only the NUMBER of macros is large
+            if size[k] + size[j] > 40:       # the expansion stays small: only the NUMBER of macros is large
                 continue
             size[k] += size[j]
             args = [aq if kk == "q" else (par("k") if "k" in names and rng.random() < 0.6 else lit(k % 3)) if kk == "i"
@@ -402,7 +406,7 @@ def fam_macros(rng, N, runnable):
         sigs.append(sig)
         p["macros"].append([f"m{k}", sig, "plain", B(body)])
     # expanded size stays linear-ish: cap by dropping second calls if it explodes (checked by the caller via cost)
-    which = list(range(N)) if N <= 300 else sorted(rng.sample(range(N), 200) + [N - 1])
+    which = list(range(N)) if N <= 300 else sorted(set(rng.sample(range(N), 120) + [N - 1]))
     calls = []
     for k in which:
         calls.append(G(f"m{k}", *[rq("r", k % R) if kk == "q" else lit(k % 3) if kk == "i" else lit(k / 4) for _, kk in sigs[k]]))
@@ -537,17 +541,18 @@ def fam_qubits(rng, N, runnable):
     return p
 
 
+# sizes: one more than each threshold (a cut-off "at T" or "beyond T" both show at T + 1), and the sizes named in the brief
 FAMILIES = {
-    #            quick sizes                                           thorough extra        runnable allowed
-    "chain":  (fam_chain,  [8, 16, 31, 32, 33, 34, 40, 64, 65, 100, 128, 129], [150, 160, 190], True),
-    "nest":   (fam_nest,   [8, 16, 20, 32, 33, 40, 64, 128, 200],             [256],           True),
-    "stmts":  (fam_stmts,  [8, 16, 32, 64, 128, 200, 256, 1000],              [2000, 4096],    True),
-    "macros": (fam_macros, [8, 16, 32, 33, 64, 65, 100, 128, 256],            [1000],          True),
-    "params": (fam_params, [8, 16, 32, 64, 128, 256],                         [1000],          False),
-    "header": (fam_header, [8, 16, 32, 49, 64, 100, 128, 256],                [1000],          True),
-    "fanout": (fam_fanout, [3, 5, 8, 9],                                      [10, 11],        True),
-    "counts": (fam_counts, [8, 16, 32, 34, 64, 128, 256, 1000, 65536],        [],              False),
-    "qubits": (fam_qubits, [8, 10, 12],                                       [13, 14],        True),
+    #            quick sizes                                     thorough extra     runnable allowed
+    "chain":  (fam_chain,  [9, 17, 33, 40, 65, 100, 129],           [150, 160, 190], True),
+    "nest":   (fam_nest,   [9, 17, 21, 33, 41, 65, 129, 200],       [257],           True),
+    "stmts":  (fam_stmts,  [9, 17, 33, 65, 129, 201, 257, 1001],    [2001],          True),
+    "macros": (fam_macros, [9, 17, 33, 65, 101, 129, 257],          [1001],          True),
+    "params": (fam_params, [9, 17, 33, 65, 129, 257],               [1001],          False),
+    "header": (fam_header, [9, 17, 33, 50, 65, 101, 129, 257],      [1001],          True),
+    "fanout": (fam_fanout, [3, 5, 8, 9],                            [10],            True),
+    "counts": (fam_counts, [9, 17, 33, 35, 65, 129, 257, 1001, 65537], [],           False),
+    "qubits": (fam_qubits, [8, 10, 12],                             [13, 14],        True),
 }
 
 
@@ -845,24 +850,32 @@ def check_scale(ck, case, p):
     flat, M, c0 = pre
     names = set(c0.macros)
     rng = random.Random(case["rseed"] + 17)
+    # deep recursion is slow in CPython (seconds per expansion on a loaded machine): in the quick tier the deepest cases
+    # go through the pass, the parse flag and the emulator only
+    light = not case.get("thorough") and case["family"] in ("chain", "nest") and case["size"] >= 100
 
     def res(label, out, base=c0, legit=False):
         return ck.result(part, label, out, M, base, case, legit, names)
 
     res("expand_macros(c)", E.guarded(lambda: expand_macros(c0)))
-    res("expand_macros(c, preserve_definitions=True)", E.guarded(lambda: expand_macros(c0, preserve_definitions=True)))
+    if not light:
+        res("expand_macros(c, preserve_definitions=True)", E.guarded(lambda: expand_macros(c0, preserve_definitions=True)))
     res("parse_jaqal_string(expand_macro=True)", E.guarded(lambda: parse(text, expand_macro=True)))
-    if rng.random() < 0.4:
+    if rng.random() < 0.4 and not light:
         path = ck.path_for(text)
         res("parse_jaqal_file(expand_macro=True)", E.guarded(lambda: parse_file(path, expand_macro=True)))
-    if rng.random() < 0.5:
+    if rng.random() < 0.5 and not light:
         base = E.guarded(lambda: parse(text, expand_let=True))
         if base[0] == "ok" or base[1] == "JaqalError":
             res("parse_jaqal_string(expand_macro=True, expand_let=True)", E.guarded(lambda: parse(text, expand_macro=True, expand_let=True)),
                 base[1] if base[0] == "ok" else None, base[0] == "err")
     # the object-level front end (also with numpy numbers as arguments)
-    for label, num in (("build(s-expression)", lambda v: v), ("build(s-expression with numpy.float64 arguments)", np_num(case["rseed"]))):
-        if rng.random() < 0.6:
+    quick = not case.get("thorough")
+    variants = [("build(s-expression)", lambda v: v), ("build(s-expression with numpy.float64 arguments)", np_num(case["rseed"]))]
+    if quick:
+        variants = [rng.choice(variants)]
+    for label, num in variants:
+        if rng.random() < 0.6 and not light:
             b = E.guarded(lambda: build(sexpr_of(p, num), inject_pulses=GX))
             if b[0] == "err":
                 ck.dist[f"{part} generator: {label} rejects ({b[1]}: {b[2][:60]})"] += 1
@@ -888,7 +901,7 @@ def check_scale(ck, case, p):
                 cref = cr[1]
                 a, b = run_results(lambda: run_jaqal_circuit(c0)), run_results(lambda: run_jaqal_circuit(cref))
                 ck.results(part, "run_jaqal_circuit(c)", a, b, case)
-                if b[0] == "ok":
+                if b[0] == "ok" and not light:
                     outs = [x[0] for x in b[1][1]]
                     a2 = E.guarded(lambda: E.freq_of(parse_jaqal_output_list(c0, list(outs))))
                     b2 = E.guarded(lambda: E.freq_of(parse_jaqal_output_list(cref, list(outs))))
@@ -898,9 +911,10 @@ def check_scale(ck, case, p):
                                f"parse_jaqal_output_list: {str(a2)[:200]} vs macro-free reference {str(b2)[:200]}")
         else:
             ck.dist[f"{part}: too many gate applications for the emulator, not run"] += 1
-    res("expand_macros(c) again, after the other entry points", E.guarded(lambda: expand_macros(c0)))
+    if not quick:
+        res("expand_macros(c) again, after the other entry points", E.guarded(lambda: expand_macros(c0)))
     # wrong arity somewhere in the reachable call graph (often deep)
-    if case.get("arity"):
+    if case.get("arity") and not light:
         q = _clean(p)
         bad = E.make_bad(random.Random(case["rseed"] + 5), q)
         if bad:
@@ -933,12 +947,13 @@ NAME_POOLS = {
                      "measure", "prepare_all.measure_all", "Prepare_all", "measure_All"],
     "internal": ["self", "cls", "args", "kwargs", "p0", "p1", "p2", "I_X", "I_", "name", "parameters", "body", "statements",
                  "iterations", "all", "None", "True", "False", "sequential", "parallel", "sequential_block", "gate", "array_item",
-                 "circuit", "gate_def", "alias_from", "alias_index", "size", "value", "lambda", "def", "class", "import_", "extra__",
+                 "circuit", "gate_def", "alias_from", "alias_index", "size", "value", "lambda", "def", "class", "import_", "extra_",
                  "visitor", "macro_", "other", "kind", "pi", "inf", "nan", "e", "j", "E1", "e5", "x0", "b0", "b1", "o7"],
     "gate-like": ["X", "Y", "CX", "P", "PF", "N", "Xx", "x", "cX", "Cx", "cal.X", "X.cal", "SWAP.SWAP"],
     "long": ["L" * 256, "m" * 300, "v" * 1000, LONG + "a", LONG + "b", LONG + ".a", LONG + "_", "w" * 255, "k." * 200 + "k"],
 }
-# macro names must not collide with the native gates (incl. the dotted copies)
+# macro names must not collide with the native gates (incl. the dotted copies); no name may be "extra__", the key that
+# c04_entry.mutate adds to a call to give it one argument too many
 
 
 def rename_program(rng, p, ov, pools, dotted_gates):
@@ -974,6 +989,11 @@ def rename_program(rng, p, ov, pools, dotted_gates):
             for x in s[4]:
                 walk_s(x)
 
+    # the parameters of one macro come first and next to each other: they get neighbouring spellings of the pool
+    for name, params, _cls, blk in q["macros"]:
+        seen(gates, name)
+        for x, _ in params:
+            seen(vars_, x)
     for n, _ in q["lets"]:
         seen(vars_, n)
     seen(vars_, q["reg"][0])
@@ -982,9 +1002,6 @@ def rename_program(rng, p, ov, pools, dotted_gates):
         seen(vars_, n)
         walk_t(src)
     for name, params, _cls, blk in q["macros"]:
-        seen(gates, name)
-        for x, _ in params:
-            seen(vars_, x)
         walk_s(blk)
     for s in q["body"]:
         walk_s(s)
@@ -992,7 +1009,12 @@ def rename_program(rng, p, ov, pools, dotted_gates):
 
     def assign(olds, forbidden, keep):
         cand = [n for n in pool if n not in forbidden]
-        rng.shuffle(cand)
+        if rng.random() < 0.6 and cand:
+            # pool order (confusable spellings are neighbours in the pools), from a random start; pop() takes from the end
+            k = rng.randrange(len(cand))
+            cand = (cand[k:] + cand[:k])[::-1]
+        else:
+            rng.shuffle(cand)
         m = {}
         for o in olds:
             if rng.random() < keep or not cand:
@@ -1285,7 +1307,7 @@ def gen_cases(seed, n, thorough):
                           "arity": rng.random() < 0.4, "thorough": thorough})
     for i in range(n):
         cases.append({"stream": "names", "idx": i, "rseed": rng.randrange(1 << 30), "thorough": thorough})
-    for i in range(max(2, n // 2)):
+    for i in range(max(2, n // 3)):
         cases.append({"stream": "defaults", "idx": i, "rseed": rng.randrange(1 << 30), "thorough": thorough})
     for i, c in enumerate(cases):
         c["id"] = i
